@@ -8,6 +8,10 @@ CONSTANTS
   RepFlags = {1}
   MaxFaults = 0
   SweepFaults = 0
+  TailBases = {}
+  TailPos = 0
+  ShortKinds = {}
+  ShortLen = 0
 INIT TInit
 NEXT TNext
 CONSTRAINT Progress
